@@ -86,6 +86,14 @@ def case_strategy(draw, tier="quick"):
         elif op == "starmap_pair":
             ops.append(["starmap", "add"])
             kind = "int"
+    # keyword arguments for the user functions; 'key' and 'priority' are also parameter names
+    # of distributed.Client.submit
+    for op in ops:
+        if op[0] in ("map", "starmap", "accumulate") and draw(st.integers(0, 2)) == 0:
+            names = draw(st.lists(st.sampled_from(["z", "z", "priority", "w", "retries"]),
+                                  min_size=1, max_size=2, unique=True))
+            op.append({"kw": {n: draw(st.integers(1, 3)) * (10 if n == "z" else 100)
+                              for n in names}})
     inputs = draw(st.lists(st.tuples(st.integers(0, 1 if two else 0), st.integers(0, 9)),
                            min_size=2, max_size=12))
     return {"two": two, "ops": ops, "inputs": [list(i) for i in inputs]}
@@ -100,14 +108,16 @@ def build(case, dask):
     used_b = False
     for op in case["ops"]:
         k = op[0]
+        ukw = op[-1]["kw"] if isinstance(op[-1], dict) else {}
         if k == "map":
-            node = node.map(FUN[op[1]])
+            node = node.map(FUN[op[1]], **ukw)
         elif k == "starmap":
-            node = node.starmap(FUN[op[1]])
+            node = node.starmap(FUN[op[1]], **ukw)
         elif k == "accumulate":
             kw = {"start": op[2]}
             if op[3]:
                 kw["returns_state"] = True
+            kw.update(ukw)
             node = node.accumulate(FUN[op[1]], **kw)
         elif k == "buffer":
             node = node.buffer(op[1])
@@ -121,28 +131,44 @@ def build(case, dask):
             node = node.zip(sb)
             used_b = True
     out = []
+    timeline = []   # ("out", k) / ("cb", i) in the order they happened
     if dask:
         node = node.gather()
-    sink = node.sink(out.append)
-    return a, (b if used_b else None), out, sink
+
+    def deliver(x):
+        out.append(x)
+        timeline.append(("out", len(out)))
+    sink = node.sink(deliver)
+    return a, (b if used_b else None), out, sink, timeline
 
 
 def run(case, dask):
-    a, b, out, sink = build(case, dask)
+    a, b, out, sink, timeline = build(case, dask)
     rcs = []
-    for ent, v in case["inputs"]:
+    for i, (ent, v) in enumerate(case["inputs"]):
         tgt = b if (ent == 1 and b is not None) else a
-        rc = RefCounter(loop=tgt.loop) if tgt.loop is not None else _RC()
+        cb = (lambda i=i: timeline.append(("cb", i)))
+        rc = RefCounter(cb=cb, loop=tgt.loop if tgt.loop is not None else _ImmediateLoop())
         rcs.append(rc)
         tgt.emit(v, metadata=[{"ref": rc}])
+    run.timeline = timeline
     return out, rcs, sink
 
 
-class _RC(RefCounter):
-    def __init__(self):
-        self.count = 0
-        self.cb = None
-        self.loop = None
+class _ImmediateLoop:
+    def add_callback(self, cb, *a, **k):
+        cb(*a, **k)
+
+
+def outs_before_cb(timeline):
+    """{input index: number of results delivered before its completion callback first ran}"""
+    res, n = {}, 0
+    for kind, k in list(timeline):
+        if kind == "out":
+            n = k
+        elif k not in res:
+            res[k] = n
+    return res
 
 
 def settle(out, expect_n, rcs, expect_counts, timeout=30.0):
@@ -165,6 +191,7 @@ def execute(case):
     # local reference run (no loop needed unless buffer/partition: those bind the dask client's
     # loop too, which is fine: emit blocks until done)
     lout, lrcs, lsink = run(case, dask=False)
+    ltimeline = run.timeline
     # local run may involve buffer (asynchronous hand-over): wait for it to drain
     t0 = time.time()
     last = (-1, None)
@@ -182,6 +209,7 @@ def execute(case):
     def worker():
         try:
             box["r"] = run(case, dask=True)
+            box["t"] = run.timeline
         except Exception as e:   # noqa: BLE001
             box["e"] = e
     th = threading.Thread(target=worker, daemon=True)
@@ -235,6 +263,14 @@ def execute(case):
             what = "reordered" if sorted(map(repr, dout)) == sorted(map(repr, expect)) else "differ"
             v.append(("%s:results-%s" % (ID, what), "ops %s inputs %s: dask %s local %s" % (
                 case["ops"], case["inputs"], list(dout), expect)))
+    elif not any(o[0] == "buffer" for o in case["ops"]) and any(
+            d < l for i, l in outs_before_cb(ltimeline).items()
+            for d in [outs_before_cb(box.get("t", [])).get(i, 10 ** 9)]):
+        lo, do = outs_before_cb(ltimeline), outs_before_cb(box.get("t", []))
+        bad = [(i, do[i], lo[i]) for i in lo if i in do and do[i] < lo[i]]
+        v.append(("%s:completion-callback-earlier-than-local" % ID,
+                  "ops %s inputs %s: (input, results delivered before its callback: dask, local) "
+                  "%s" % (case["ops"], case["inputs"], bad[:5])))
     elif [r.count for r in drcs] != expect_counts:
         v.append(("%s:refcounts-differ" % ID, "ops %s inputs %s: dask counts %s local counts %s" % (
             case["ops"], case["inputs"], [r.count for r in drcs], expect_counts)))
